@@ -417,6 +417,9 @@ int32_t jls_raw_chunk_scan(struct jls_raw_s * self) {
         if ((offset + (int64_t) sz) > offset_end) {
             sz = offset_end - offset;
         }
+        if (sz < sizeof(struct jls_chunk_header_s)) {
+            break;  // the remainder cannot hold a chunk header
+        }
         size_t sz_block = sz;
         jls_bk_fread(&self->backend, buffer, (unsigned const) sz);
         while (sz >= sizeof(struct jls_chunk_header_s)) {
